@@ -568,6 +568,10 @@ struct Lp {
 	mine_early: bool,
 	/// blocks mined after the rebroadcast
 	drain: u32,
+	/// unconfirm-order family: the two *ReorgsOnlyTip styles are replaced by a Confirm client that (like
+	/// lightning-transaction-sync) reports the reorg with `transaction_unconfirmed` calls in a chosen ORDER and then
+	/// announces only the NEW TIP (not below any removed transaction's old height) before / after re-confirming
+	uo_family: bool,
 }
 
 #[derive(Clone, Debug)]
@@ -638,15 +642,24 @@ struct LpExec<'a> {
 	label: String,
 	step: u32,
 	out: LpOut,
+	/// order of the `transaction_unconfirmed` calls of an unconfirm-only disconnection: 0 = the library helper (block by
+	/// block from the tip, then the harness' best_block_updated(fork point) for the transactions-first style);
+	/// 1 = lowest height first, 2 = highest height first, 3 = the order of get_relevant_txids (sorted by txid)
+	uo: u8,
+	/// the next run of blocks is delivered by announcing only its last block as the new tip
+	skip_to_tip: bool,
+	/// `buried` as it was when the reorg started (unconfirm-order family: only what was buried BEFORE the reorg is
+	/// irrevocable by design; the tip-only re-sync buries the re-confirmed commitment in one step)
+	buried_at_disc: Option<HashSet<(usize, u32)>>,
 }
 
 impl<'a> LpExec<'a> {
-	fn new(lp: &'a Lp, style: ConnectStyle, live: bool, fin: Option<&LpFinal>) -> Result<LpExec<'a>, String> {
+	fn new(lp: &'a Lp, style: ConnectStyle, uo: u8, live: bool, fin: Option<&LpFinal>) -> Result<LpExec<'a>, String> {
 		let ab: Vec<(u64, bool)> = lp.ab.iter().map(|x| (x.0, x.1 == When::Before)).collect();
 		let ba: Vec<(u64, bool)> = lp.ba.iter().map(|x| (x.0, x.1 == When::Before)).collect();
 		let (w, pays) = build_prefix_pays(&ab, &ba, lp.closer);
 		let mut e = LpExec { w, pays, lp, style, live, reference: fin.is_none(), ids: HashMap::new(), cat: [BTreeMap::new(), BTreeMap::new()], tracked: vec![], commitment: Txid::from_raw_hash(bitcoin::hashes::Hash::all_zeros()),
-			mempool: vec![], seen: HashSet::new(), by_node: HashMap::new(), events: [vec![], vec![]], first_seen: [BTreeMap::new(), BTreeMap::new()], provided: vec![], buried: HashSet::new(), label: format!("{}.{}", lp.seed % 100_000, STYLES.iter().position(|x| *x == style).unwrap_or(99)), step: 0, out: LpOut::default() };
+			mempool: vec![], seen: HashSet::new(), by_node: HashMap::new(), events: [vec![], vec![]], first_seen: [BTreeMap::new(), BTreeMap::new()], provided: vec![], buried: HashSet::new(), label: format!("{}.{}{}", lp.seed % 100_000, STYLES.iter().position(|x| *x == style).unwrap_or(99), if uo == 0 { String::new() } else { format!("u{}", uo) }), step: 0, out: LpOut::default(), uo, skip_to_tip: false, buried_at_disc: None };
 		e.provided = whens(lp).iter().map(|w| *w == When::Before).collect();
 		e.take();
 		// the closer's commitment transaction and the tracked outputs on it
@@ -793,6 +806,7 @@ impl<'a> LpExec<'a> {
 
 	/// connect a run of consecutive blocks (starting at height `h`) in the node's style
 	fn connect_run(&mut self, rec: &mut Rec, blocks: &[Block]) -> Result<(), String> {
+		if self.skip_to_tip && !blocks.is_empty() { self.skip_to_tip = false; return self.connect_run_tip_only(rec, blocks); }
 		let mut i = 0;
 		while i < blocks.len() {
 			let mut k = 1;
@@ -821,8 +835,102 @@ impl<'a> LpExec<'a> {
 		Ok(())
 	}
 
-	fn disconnect(&mut self, rec: &mut Rec, depth: u32) {
+	/// The Confirm client that syncs against an index (lightning-transaction-sync): the whole run is taken in at once —
+	/// only its LAST block is announced as the new tip (`best_block_updated` "may be skipped for intermediary blocks"),
+	/// the transactions of the run are confirmed with their own headers / heights; best-block-first or transactions-first
+	/// according to the style.  No best_block_updated below the old tip is ever made.
+	fn connect_run_tip_only(&mut self, rec: &mut Rec, blocks: &[Block]) -> Result<(), String> {
+		use lightning::chain::Confirm;
+		let best_first = self.style == ConnectStyle::BestBlockFirstReorgsOnlyTip;
 		for n in 0..2 {
+			let h1 = self.height(n) + 1;
+			for (j, b) in blocks.iter().enumerate() { self.w.net.nodes[n].blocks.lock().unwrap().push((b.clone(), h1 + j as u32)); }
+			let (last, hl) = (blocks.last().unwrap().clone(), h1 + blocks.len() as u32 - 1);
+			let mut calls: Vec<(String, Option<(Block, u32)>)> = vec![];
+			for (j, b) in blocks.iter().enumerate() { if !b.txdata.is_empty() {
+				let ids = relevant_ids(b, &self.ids);
+				calls.push((format!("conf {}{}", h1 + j as u32, ids.iter().map(|x| format!(" {}", x)).collect::<String>()), Some((b.clone(), h1 + j as u32))));
+			} }
+			if best_first { calls.insert(0, (format!("best {}", hl), None)); } else { calls.push((format!("best {}", hl), None)); }
+			for (op, what) in calls {
+				match what {
+					None => { let node = &self.w.net.nodes[n]; node.chain_monitor.chain_monitor.best_block_updated(&last.header, hl); node.node.best_block_updated(&last.header, hl); },
+					Some((b, hb)) => {
+						let node = &self.w.net.nodes[n];
+						let txdata: Vec<_> = b.txdata.iter().enumerate().collect();
+						node.chain_monitor.chain_monitor.transactions_confirmed(&b.header, &txdata, hb);
+						node.node.transactions_confirmed(&b.header, &txdata, hb);
+					},
+				}
+				let kind = if op.starts_with("best") { "tip-only-best" } else { "tip-only-conf" };
+				self.emit(rec, n, vec![op], kind);
+				self.poll(n);
+			}
+			let tip = self.height(n);
+			if let Some(hc) = self.conf_height(n, &self.commitment) { if tip + 1 - hc >= ANTI_REORG_DELAY { self.buried.insert((n, 0)); } }
+			for t in self.tracked.clone().iter().filter(|t| t.node == n) { if let Some((_, hs)) = self.spender(n, &t.op) { if tip + 1 - hs >= ANTI_REORG_DELAY { self.buried.insert((n, t.oid)); } } }
+		}
+		self.take();
+		Ok(())
+	}
+
+	/// unconfirm-only disconnection with a chosen ORDER of the `transaction_unconfirmed` calls (a Confirm client may
+	/// report the removed transactions in any order; one that iterates get_relevant_txids does so sorted by txid).
+	/// Implementation-side oracle O5 (Confirm docs): a transaction reported unconfirmed is no longer listed by
+	/// get_relevant_txids.
+	fn unconfirm_in_order(&mut self, rec: &mut Rec, n: usize, depth: u32) {
+		use lightning::chain::Confirm;
+		let popped: Vec<(Block, u32)> = { let bl = self.w.net.nodes[n].blocks.lock().unwrap(); bl[bl.len() - depth as usize..].to_vec() };
+		// (height, position, txid) of every removed transaction
+		let mut txs: Vec<(u32, usize, Txid)> = vec![];
+		for (b, h) in popped.iter() { for (i, t) in b.txdata.iter().enumerate() { txs.push((*h, i, t.compute_txid())); } }
+		match self.uo {
+			1 => txs.sort(),
+			2 => { txs.sort(); txs.reverse(); },
+			_ => {
+				let mon = self.w.net.nodes[n].chain_monitor.chain_monitor.get_monitor(self.w.chan).unwrap();
+				let rel: Vec<Txid> = mon.get_relevant_txids().iter().map(|x| x.0).collect();
+				let mut v: Vec<(u32, usize, Txid)> = rel.iter().filter_map(|r| txs.iter().find(|t| t.2 == *r).cloned()).collect();
+				// (transactions the monitor no longer lists need no call; a careful client reports them all the same, last)
+				for t in txs.iter() { if !v.contains(t) { v.push(*t); } }
+				txs = v;
+			},
+		}
+		if self.live { rec.directive(&format!("{} usnap", n)); }
+		for (_, _, txid) in txs.iter() {
+			self.w.net.nodes[n].chain_monitor.chain_monitor.transaction_unconfirmed(txid);
+			self.w.net.nodes[n].node.transaction_unconfirmed(txid);
+			if let Some(id) = self.ids.get(txid).cloned() { let kind = format!("unconfirm-order{}", self.uo); self.emit(rec, n, vec![format!("unconf {}", id)], &kind); }
+			let mon = self.w.net.nodes[n].chain_monitor.chain_monitor.get_monitor(self.w.chan).unwrap();
+			if mon.get_relevant_txids().iter().any(|x| x.0 == *txid) {
+				self.out.fails.push(format!("O5 node {} still lists transaction {} (id {}) in get_relevant_txids right after transaction_unconfirmed({}) [order {}: {:?}]", n, &txid.to_string()[..8], self.ids.get(txid).cloned().unwrap_or(0), &txid.to_string()[..8], self.uo, txs.iter().map(|t| (t.0, self.ids.get(&t.2).cloned().unwrap_or(0))).collect::<Vec<_>>()));
+			}
+		}
+		if self.live {
+			// the closed form of the theorems (unconfirm_only_vs_listen / unconfirm_order_independent) against the real state
+			let fork_h = popped[0].1 - 1;
+			let idl: String = txs.iter().filter_map(|t| self.ids.get(&t.2)).map(|i| format!(" {}", i)).collect();
+			let ans = format!("{} {} closed=true", view_line(&self.w.net, n, &self.w.chan, &self.ids), self.cv_line(n));
+			rec.case(&format!("{} upred {}{}", n, fork_h, idl), &ans, &format!("lp/{:?}/unconfirm-order{}/closed-form", self.style, self.uo), true);
+		}
+		{ let mut bl = self.w.net.nodes[n].blocks.lock().unwrap(); let l = bl.len(); bl.truncate(l - depth as usize); }
+	}
+
+	fn is_exempt(&self, n: usize, oid: u32) -> bool {
+		let bur = match (&self.buried_at_disc, self.lp.uo_family) { (Some(b), true) => b, _ => &self.buried };
+		bur.contains(&(n, oid)) || (bur.contains(&(n, 0)) && self.lp.df < 0)
+	}
+
+	fn disconnect(&mut self, rec: &mut Rec, depth: u32) {
+		self.buried_at_disc = Some(self.buried.clone());
+		let ordered = self.uo != 0 && matches!(self.style, ConnectStyle::BestBlockFirstReorgsOnlyTip | ConnectStyle::TransactionsFirstReorgsOnlyTip);
+		for n in 0..2 {
+			if ordered {
+				self.unconfirm_in_order(rec, n, depth);
+				self.skip_to_tip = true;
+				self.poll(n);
+				continue;
+			}
 			let mut ops = disconnect_with_ops(&self.w.net, n, self.style, depth, &self.ids);
 			if self.style == ConnectStyle::BestBlockFirstReorgsOnlyTip && whens(self.lp).contains(&When::AfterDisc) {
 				// a monitor update is about to be applied between the disconnection and the next block: the client
@@ -873,7 +981,7 @@ impl<'a> LpExec<'a> {
 				let spent = self.spender(n, &t.op);
 				let at = whens(self.lp)[t.pay];
 				// irrevocable by design: the spend / the commitment had ANTI_REORG_DELAY confirmations before a reorg of that depth
-				let exempt = self.buried.contains(&(n, t.oid)) || (self.buried.contains(&(n, 0)) && self.lp.df < 0);
+				let exempt = self.is_exempt(n, t.oid);
 				if rebroadcast && !exempt { pend.push(format!("{}", t.oid)); }
 				if self.provided[t.pay] && commit_h.is_some() && spent.is_none() && !exempt && (!rebroadcast || !registered) {
 					self.out.fails.push(format!("{}O1 claim lost: node {} holds the preimage of HTLC {} (provided {:?}), the commitment is confirmed at height {} of its best chain (tip {}), the HTLC output {}:{} is unspent, but {} [{}]",
@@ -893,7 +1001,7 @@ impl<'a> LpExec<'a> {
 			self.poll(n);
 			for t in self.tracked.clone().iter().filter(|t| t.node == n && t.pay != usize::MAX) {
 				if !self.provided[t.pay] || self.conf_height(n, &self.commitment).is_none() { continue; }
-				if self.spender(n, &t.op).is_none() && (self.buried.contains(&(n, t.oid)) || (self.buried.contains(&(n, 0)) && self.lp.df < 0)) { continue; }
+				if self.spender(n, &t.op).is_none() && self.is_exempt(n, t.oid) { continue; }
 				let at = whens(self.lp)[t.pay];
 				match self.spender(n, &t.op) {
 					// (a replay follows the reference run's blocks: if this node did re-broadcast its claim but the fixed chain does not contain it, nothing can be concluded)
@@ -950,7 +1058,7 @@ impl<'a> LpExec<'a> {
 
 /// the reference run (whole blocks via Listen) decides the blocks; returns the step list
 fn lp_reference(lp: &Lp, rec: &mut Rec) -> Result<LpFinal, String> {
-	let mut e = LpExec::new(lp, ConnectStyle::FullBlockViaListen, false, None)?;
+	let mut e = LpExec::new(lp, ConnectStyle::FullBlockViaListen, 0, false, None)?;
 	let ws = whens(lp);
 	let mut steps: Vec<Step> = vec![];
 	let h0 = e.w.h0;
@@ -1009,8 +1117,8 @@ fn lp_reference(lp: &Lp, rec: &mut Rec) -> Result<LpFinal, String> {
 	Ok(fin)
 }
 
-fn lp_replay(lp: &Lp, fin: &LpFinal, style: ConnectStyle, rec: &mut Rec) -> Result<LpOut, String> {
-	let mut e = LpExec::new(lp, style, true, Some(fin))?;
+fn lp_replay(lp: &Lp, fin: &LpFinal, style: ConnectStyle, uo: u8, rec: &mut Rec) -> Result<LpOut, String> {
+	let mut e = LpExec::new(lp, style, uo, true, Some(fin))?;
 	e.preamble(rec, fin);
 	let res = guarded(AssertUnwindSafe(|| -> Result<(), String> {
 		let mut i = 0;
@@ -1064,17 +1172,39 @@ fn gen_lps(seed: u64, thorough: bool, rng: &mut Rng) -> Vec<Lp> {
 				let (ab, ba) = if closer == 0 { (prim, sec) } else { (sec, prim) };
 				v.push(Lp { seed: seed.wrapping_mul(100_000).wrapping_add(v.len() as u64), ab, ba, closer, gap: rng.below(3) as u32, m, df, recommit: rng.below(3) as u32, extra: rng.below(3) as u32,
 					mine_early: rng.chance(1, 4), // (the drain stays below the HTLCs' cltv expiry: time-locked packages never reach their locktime)
-					drain: if thorough && rng.chance(1, 4) { 20 + rng.below(20) as u32 } else { ANTI_REORG_DELAY + 3 } });
+					drain: if thorough && rng.chance(1, 4) { 20 + rng.below(20) as u32 } else { ANTI_REORG_DELAY + 3 }, uo_family: false });
 			}
 		}
+	}
+	// UNCONFIRM-ORDER family: the commitment (height H) AND the recipient's claim transaction (mined early, at H+1..)
+	// are both removed by the reorg (fork point below H, depth <= ANTI_REORG_DELAY); the commitment re-confirms, the
+	// claim transaction does not (the mempool is evicted); the new chain is taken in tip-only up to a height that is
+	// at least ANTI_REORG_DELAY - 1 above the claim transaction's OLD height before the rebroadcast checkpoint, so a
+	// stale handler entry of the removed claim transaction would have matured by then.
+	let n_uo = if thorough { 18 } else { 5 };
+	for i in 0..n_uo {
+		let closer = rng.below(2) as usize;
+		let df = -1 - (rng.below(2) as i32);
+		let m = 2 + rng.below((ANTI_REORG_DELAY as i32 + df - 1) as u64) as u32; // 2 ..= ANTI_REORG_DELAY + df
+		let primary = if i % 3 == 2 { When::At(0) } else { When::Before };
+		let a1 = 3_000_000 + rng.below(9_000_000);
+		let a2 = 13_000_000 + rng.below(9_000_000);
+		let a3 = 23_000_000 + rng.below(9_000_000);
+		let mut prim = vec![(a1, primary)];
+		if rng.chance(1, 3) { prim.push((a3, When::Before)); }
+		let sec = if rng.chance(1, 2) { vec![(a2, *rng.pick(&[When::Before, When::At(0), When::AfterReorg, When::Never]))] } else { vec![] };
+		let (ab, ba) = if closer == 0 { (prim, sec) } else { (sec, prim) };
+		v.push(Lp { seed: seed.wrapping_mul(100_000).wrapping_add(v.len() as u64), ab, ba, closer, gap: rng.below(3) as u32, m, df, recommit: rng.below(3) as u32,
+			extra: ANTI_REORG_DELAY + rng.below(2) as u32, mine_early: true, drain: ANTI_REORG_DELAY + 3, uo_family: true });
 	}
 	v
 }
 
-struct LpStats { scenarios: u64, skipped: u64, runs: u64, blocks: u64, kf4: u64, late: u64 }
+struct LpStats { scenarios: u64, skipped: u64, runs: u64, blocks: u64, kf4: u64, late: u64, uo: u64 }
 
 fn run_lps(args: &Args, rec: &mut Rec, rng: &mut Rng, diag: &mut dyn Write) -> LpStats {
-	let mut st = LpStats { scenarios: 0, skipped: 0, runs: 0, blocks: 0, kf4: 0, late: 0 };
+	let mut st = LpStats { scenarios: 0, skipped: 0, runs: 0, blocks: 0, kf4: 0, late: 0, uo: 0 };
+	let only_uo: Option<u8> = std::env::var("C11_UO").ok().and_then(|x| x.parse().ok());
 	let only: Option<usize> = std::env::var("C11_LP_ONLY").ok().and_then(|x| x.parse().ok());
 	let only_style: Option<usize> = std::env::var("C11_STYLE").ok().and_then(|x| x.parse().ok());
 	let lps = gen_lps(args.seed, args.thorough, rng);
@@ -1082,6 +1212,7 @@ fn run_lps(args: &Args, rec: &mut Rec, rng: &mut Rng, diag: &mut dyn Write) -> L
 	let t0 = std::time::Instant::now();
 	for (li, lp) in lps.iter().enumerate() {
 		if only.map(|o| o != li).unwrap_or(false) { continue; }
+		if std::env::var("C11_UO_ONLY").is_ok() && !lp.uo_family { continue; }
 		st.scenarios += 1;
 		let fin = match guarded(AssertUnwindSafe(|| lp_reference(lp, rec))) {
 			Ok(Ok(f)) => f,
@@ -1097,18 +1228,27 @@ fn run_lps(args: &Args, rec: &mut Rec, rng: &mut Rng, diag: &mut dyn Write) -> L
 		};
 		let mut base: Option<(ConnectStyle, LpOut)> = None;
 		let mut reported: HashSet<String> = HashSet::new();
-		for &sty in styles.iter() {
+		let runs: Vec<(ConnectStyle, u8)> = if !lp.uo_family { styles.iter().map(|s| (*s, 0u8)).collect() } else {
+			// the Listen client and a rewinding Confirm client as references, then the unconfirm-only client in every order
+			let mut v = vec![(ConnectStyle::FullBlockViaListen, 0u8), (ConnectStyle::BestBlockFirst, 0)];
+			for uo in 1..=3u8 { v.push((ConnectStyle::BestBlockFirstReorgsOnlyTip, uo)); v.push((ConnectStyle::TransactionsFirstReorgsOnlyTip, uo)); }
+			if args.thorough { v.push((ConnectStyle::TransactionsFirstSkippingBlocks, 0)); v.push((ConnectStyle::BestBlockFirstReorgsOnlyTip, 0)); v.push((ConnectStyle::TransactionsFirstReorgsOnlyTip, 0)); }
+			v
+		};
+		if lp.uo_family { st.uo += 1; }
+		for &(sty, uo) in runs.iter() {
 			if only_style.map(|o| STYLES[o] != sty).unwrap_or(false) { continue; }
+			if only_uo.map(|o| o != uo).unwrap_or(false) { continue; }
 			st.runs += 1; st.blocks += fin.n_blocks as u64;
-			let out = match lp_replay(lp, &fin, sty, rec) {
+			let out = match lp_replay(lp, &fin, sty, uo, rec) {
 				Ok(o) => o,
-				Err(e) => { rec.oracle_fail(format!("lp delivery failed: scenario {} {:?} style={:?}: {}", li, lp, sty, e)); continue; },
+				Err(e) => { rec.oracle_fail(format!("lp delivery failed: scenario {} {:?} style={:?} unconfirm-order={}: {}", li, lp, sty, uo, e)); continue; },
 			};
 			for f in out.fails.iter() {
 				// one report per (scenario, oracle text modulo style); known findings once per run
 				if f.starts_with("KF-C11-4") { st.kf4 += 1; if kf4_reported { continue; } kf4_reported = true; }
 				else if !reported.insert(f.clone()) { continue; }
-				rec.oracle_fail(format!("{} — lp scenario {} {:?} style={:?}", f, li, lp, sty));
+				rec.oracle_fail(format!("{} — lp scenario {} {:?} style={:?} unconfirm-order={}", f, li, lp, sty, uo));
 			}
 			match &base {
 				None => base = Some((sty, out)),
@@ -1116,12 +1256,12 @@ fn run_lps(args: &Args, rec: &mut Rec, rng: &mut Rng, diag: &mut dyn Write) -> L
 					// outputs in one of the two known-finding classes are reported (once) under their tag
 					let kf: Vec<(String, &'static str)> = fin.tracked.iter().filter(|t| t.node == n && t.pay != usize::MAX).filter_map(|t| kf_tag(t.holder, whens(lp)[t.pay]).map(|k| (t.oid.to_string(), k))).collect();
 					let strip = |p: &str| p.split(',').filter(|o| !o.is_empty() && !kf.iter().any(|(k, _)| k == o)).collect::<Vec<_>>().join(",");
-					if strip(&out.pending[n]) != strip(&b.pending[n]) { rec.oracle_fail(format!("O4 styles disagree on the claims pending at the rebroadcast: lp scenario {} {:?} node={} {:?}: [{}] vs {:?}: [{}]", li, lp, n, bst, b.pending[n], sty, out.pending[n])); }
+					if strip(&out.pending[n]) != strip(&b.pending[n]) { rec.oracle_fail(format!("O4 styles disagree on the claims pending at the rebroadcast: lp scenario {} {:?} node={} {:?}: [{}] vs {:?} (unconfirm-order {}): [{}]", li, lp, n, bst, b.pending[n], sty, uo, out.pending[n])); }
 					else if out.pending[n] != b.pending[n] { st.kf4 += 1; }
 					if out.end[n] != b.end[n] {
 						let tag = if out.pending[n] != b.pending[n] && !kf.is_empty() { format!("{} — ", kf[0].1) } else { String::new() };
 						if !tag.is_empty() { st.kf4 += 1; if kf4_reported { continue; } kf4_reported = true; }
-						rec.oracle_fail(format!("{}O4 styles disagree at the end: lp scenario {} {:?} node={} {:?}: [{}] vs {:?}: [{}]", tag, li, lp, n, bst, b.end[n], sty, out.end[n]));
+						rec.oracle_fail(format!("{}O4 styles disagree at the end: lp scenario {} {:?} node={} {:?}: [{}] vs {:?} (unconfirm-order {}): [{}]", tag, li, lp, n, bst, b.end[n], sty, uo, out.end[n]));
 					}
 				},
 			}
@@ -1161,8 +1301,8 @@ fn main() {
 	let forks_per = if args.thorough { 12 } else { 5 };
 	let mut n_runs = 0u64; let mut n_groups = 0u64; let mut n_txs = 0usize; let mut n_blocks = 0usize;
 	let mut skipped = 0u64; let mut n_kf1 = 0u64; let mut n_kf2 = 0u64;
-	let lpst = if std::env::var("C11_NO_LP").is_ok() { LpStats { scenarios: 0, skipped: 0, runs: 0, blocks: 0, kf4: 0, late: 0 } } else { run_lps(args, &mut rec, &mut Rng::new(args.seed.wrapping_mul(0x9E37).wrapping_add(0xC11)), &mut *diag) };
-	let n_scn = if std::env::var("C11_LP_ONLY").is_ok() { 0 } else { n_scn };
+	let lpst = if std::env::var("C11_NO_LP").is_ok() { LpStats { scenarios: 0, skipped: 0, runs: 0, blocks: 0, kf4: 0, late: 0, uo: 0 } } else { run_lps(args, &mut rec, &mut Rng::new(args.seed.wrapping_mul(0x9E37).wrapping_add(0xC11)), &mut *diag) };
+	let n_scn = if std::env::var("C11_LP_ONLY").is_ok() || std::env::var("C11_UO_ONLY").is_ok() { 0 } else { n_scn };
 	let t0 = std::time::Instant::now();
 	for si in 0..n_scn {
 		let sseed = args.seed.wrapping_mul(1000).wrapping_add(si);
@@ -1244,6 +1384,6 @@ fn main() {
 		}
 		let _ = writeln!(diag, "c11: scenario {} done, {} txs, {} blocks, {:.1}s", si, fin.n_txs, fin.blocks.len(), t0.elapsed().as_secs_f32());
 	}
-	rec.notes.insert("rule".into(), format!("{} seeded force-close scenarios ({} skipped), {} mined transactions over {} blocks; {} (scenario, fork shape) groups, {} fresh-copy deliveries (all 11 ConnectStyles fork-free; fork depths 1..={} incl. one depth-{} per scenario, 3 fork contents); fork groups are delivered twice: events polled after every call (compared with the model) and only at checkpoints (cross-style only); every util call of a polled run is one correspondence case (distinct by op text); known-finding hits: KF-C11-1 x{}, KF-C11-2 x{}; LATE-PREIMAGE family: {} histories ({} skipped; {} with a preimage provided >= 1 block after the commitment confirmed) = every k in 0..={} x every fork point H-2..=tip-1, {} fresh-copy deliveries over {} blocks, claim bookkeeping (creation heights) compared with the model after every call; KF-C11-4 x{} (either commitment kind, after final)", n_scn, skipped, n_txs, n_blocks, n_groups, n_runs, ANTI_REORG_DELAY, ANTI_REORG_DELAY, n_kf1, n_kf2, lpst.scenarios, lpst.skipped, lpst.late, ANTI_REORG_DELAY + 1, lpst.runs, lpst.blocks, lpst.kf4));
+	rec.notes.insert("rule".into(), format!("{} seeded force-close scenarios ({} skipped), {} mined transactions over {} blocks; {} (scenario, fork shape) groups, {} fresh-copy deliveries (all 11 ConnectStyles fork-free; fork depths 1..={} incl. one depth-{} per scenario, 3 fork contents); fork groups are delivered twice: events polled after every call (compared with the model) and only at checkpoints (cross-style only); every util call of a polled run is one correspondence case (distinct by op text); known-finding hits: KF-C11-1 x{}, KF-C11-2 x{}; LATE-PREIMAGE family: {} histories ({} skipped; {} with a preimage provided >= 1 block after the commitment confirmed) = every k in 0..={} x every fork point H-2..=tip-1, {} fresh-copy deliveries over {} blocks, claim bookkeeping (creation heights) compared with the model after every call; KF-C11-4 x{} (either commitment kind, after final); UNCONFIRM-ORDER family: {} of these histories remove the commitment AND the recipient's claim transaction by transaction_unconfirmed calls in every order (lowest-first, highest-first, get_relevant_txids order) followed by a tip-only re-sync (no best_block_updated below the removed transactions), oracle O5 (get_relevant_txids after transaction_unconfirmed)", n_scn, skipped, n_txs, n_blocks, n_groups, n_runs, ANTI_REORG_DELAY, ANTI_REORG_DELAY, n_kf1, n_kf2, lpst.scenarios, lpst.skipped, lpst.late, ANTI_REORG_DELAY + 1, lpst.runs, lpst.blocks, lpst.kf4, lpst.uo));
 	rec.finish();
 }
